@@ -763,15 +763,26 @@ def c03_flags(case, outcome=None):
         for (u, _prop), n in multi_meta.items():
             if n >= 2:
                 flag(u, 'multi_meta')
-    # AddField with db_column folded with a later RenameField of that field
+    # AddField folded with a later RenameField of that field while a db_column is in play
+    # (given by the AddField, or by a ChangeField of the field before or after the rename):
+    # the folded AddField ends up with the wrong db_column
     for b in _batches(case):
-        added_cols = {}
+        added = {}          # (uid, current name) -> {'col': bool, 'renamed': bool}
         for i in b:
             m = seq[i]
-            if m['kind'] == 'AddField' and m['field'].get('db_column'):
-                added_cols[(uids[i], m['field']['name'])] = True
-            if m['kind'] == 'RenameField' and (uids[i], m['old']) in added_cols:
-                flag(uids[i], 'add_rename_dbcolumn')
+            if m['kind'] == 'AddField':
+                added[(uids[i], m['field']['name'])] = {
+                    'col': bool(m['field'].get('db_column')), 'renamed': False}
+            elif m['kind'] == 'ChangeField' and (uids[i], m['name']) in added:
+                if m['attrs'].get('db_column'):
+                    added[(uids[i], m['name'])]['col'] = True
+            elif m['kind'] == 'RenameField' and (uids[i], m['old']) in added:
+                st_ = added.pop((uids[i], m['old']))
+                st_['renamed'] = True
+                added[(uids[i], m['new'])] = st_
+        for (u, _n), st_ in added.items():
+            if st_['col'] and st_['renamed']:
+                flag(u, 'add_rename_dbcolumn')
     # a field name is vacated and (re)occupied inside a batch that also deletes a field
     for b in _batches(case):
         per = {}
@@ -789,6 +800,19 @@ def c03_flags(case, outcome=None):
         for u, d in per.items():
             if d['del'] and d['vac'] & d['occ']:
                 flag(u, 'delete_name_reuse')
+    # an indexed column is renamed away and its name taken by a new indexed field
+    for b in _batches(case):
+        vacated = {}
+        for i in b:
+            m = seq[i]
+            if m['kind'] == 'RenameField':
+                mm_ = S.get_model(trail[i], m['app'], m['model'])
+                f_ = S.get_field(mm_, m['old']) if mm_ else None
+                if f_ is not None and (f_['db_index'] or f_['kind'] in ('ForeignKey',)):
+                    vacated[(uids[i], m['old'])] = True
+            if m['kind'] == 'AddField' and (uids[i], m['field']['name']) in vacated and \
+                    (m['field']['db_index'] or m['field']['kind'] in ('ForeignKey',)):
+                flag(uids[i], 'indexed_name_reuse')
     # AddField folded with a later RenameField of the same field: the optimiser rewrites the
     # AddField definition in place (F-C03-1); the Evolver's second pass then meets a
     # RenameField whose source no longer exists
@@ -982,7 +1006,17 @@ def add_field_db_column_survives_rename(case, outcome, atoms):
     (without db_column): the folded AddField keeps db_column=X although the
     rename resets the column to the default for the new name."""
     return _explain_by_flag('add_rename_dbcolumn', case, outcome, atoms,
-                            exc_types=(), kinds=('column', 'index'))
+                            exc_types=(), kinds=('column', 'index', 'fk'))
+
+
+@explainer
+def indexed_name_reused_inside_batch(case, outcome, atoms):
+    """Inside one batch the DatabaseState still lists the index of a column that
+    an earlier RenameField of the batch renamed away (the index is named after
+    the old column); an AddField that takes the vacated name with an index of
+    its own then collides: DatabaseStateError 'index ... already exists'."""
+    return _explain_by_flag('indexed_name_reuse', case, outcome, atoms,
+                            exc_types=('DatabaseStateError',), kinds=())
 
 
 # ---------------------------------------------------------------------------
